@@ -1,15 +1,16 @@
 /-
 save ∘ load — the loader theorems (C02) composed with the writer theorems (C03/C04/C05), and what
-follows for C20 (`validate` on the reloaded object), C05 (`Loaded`) and C06.
+follows for C20 (`validate` on the reloaded object), C05 (`Loaded`), C17 (names in truncated files)
+and C06 (save ∘ load ∘ save).  Helper lemmas: Lemmas/RoundTrip.lean.
 
- 1. `saved_wellFormed`, `reload_reports_saved` (+ `reload_reports_input`): the bytes produced by a
-    successful `save` are a `C02.WellFormedImage`; loading them (the model's `load`, eager or lazy,
-    string- or file-backed stream, any start object without address translation) succeeds and yields
-    an object whose header, per-section fields (index, name offset, type, flags, address, offset, size,
-    link, info, alignment, entry size, name, data) and per-segment fields (index, type, flags, offset,
-    vaddr, paddr, filesz, memsz, align, member list = the specification's membership rule, data) are
-    those of the object `save` left (`RoundTrip.Reloaded`) — hence, through `C05.save_writes_fields`,
-    those put into the object before the save.
+ 1. `saved_wellFormed`, `reload_reports_saved` (+ `_noseg`, `_flat`): the bytes produced by a successful
+    `save` are a `C02.WellFormedImage`; loading them (the model's `load`, eager or lazy, string- or
+    file-backed stream, any start object without address translation) succeeds and yields an object
+    whose header, per-section fields (index, name offset, type, flags, address, offset, size, link,
+    info, alignment, entry size, name, data) and per-segment fields (index, type, flags, offset, vaddr,
+    paddr, filesz, memsz, align, member list = the specification's membership rule, data) are those of
+    the object `save` left (`RoundTrip.Reloaded`) — hence, through `C05.save_writes_fields`
+    (`reload_resave_fields`), those put into the object before the save.
     Which hypotheses of C02's refinement the writer's output satisfies, and from which writer lemma:
       magic / class / byte order bytes  — header setters write behind byte 16 (`set_take16`)
       complete ELF header, `e_shnum`, `e_phnum`, entry sizes — `C03.save_header_fields`, `SaveInput`
@@ -21,9 +22,18 @@ follows for C20 (`validate` on the reloaded object), C05 (`Loaded`) and C06.
       segment file ranges inside the file — no segments: vacuous; flat segments: `layoutSegment_flat`
         (`segInside_flat`); otherwise hypothesis `SavedSane.segInside`
       file shorter than 2^63 — positioned-writes form of the stream (`applyWrites_length_le`), `FileSmall`
-      no address/offset range reaches 2^64 — hypothesis `SavedSane` (decidable, on the saved object)
+      no address/offset range reaches 2^64 — hypothesis `NoWrap64` (decidable, on the saved object;
+        automatic in ELF32)
       name table terminated — `SaveInput.names` (decidable, on the input object), data kept by `save`.
- 2. `validate_silent_reloaded_unconditional` (C20), `loaded_satisfies_Loaded`, `reload_resave_fields` (C05).
+    General forms take `C03.LayoutOk` and `SavedSane` as hypotheses (all rungs); `_noseg` / `_flat` forms
+    take decidable hypotheses on the INPUT object only (`ComposeDomain` / `FlatDomain`; `LayoutOk` from
+    `C03.layoutOk_of_save`) plus `NoWrap64` of the saved object.
+ 2. C20: `validate_silent_reloaded_unconditional`, `validate_silent_reloaded_flat`.
+ 3. C05: `loaded_satisfies_Loaded` (+ `_flat`), `reload_resave_fields` (+ `_flat`).
+ 4. C17: `prefix_sound_names` (the name of a zeroed section; `NameTableNul img`).
+ 5. C06: `save_load_save_noseg`; `SaveLoadSaveStatement` (with segments) stated, not proved.
+Not proved here: nested segments (segment file ranges inside the file: `SavedSane.segInside` stays a
+hypothesis of the general forms), save ∘ load ∘ save with segments.
 -/
 import ElfioVerif.Lemmas.RoundTrip
 import ElfioVerif.Props.C06
@@ -520,5 +530,84 @@ theorem prefix_sound_names (o : Obj) (htr : o.trans = []) (img : Bytes) (k : Nat
 /-- non-vacuity: `C17.img272` is well-formed and its name table starts with NUL; its prefix of length
     250 loads, with a zeroed section next to the resident name table -/
 example : C02.WellFormedImage C17.img272 ∧ NameTableNul C17.img272 := by decide +kernel
+
+/-! ### 5. C06 : save ∘ load ∘ save for objects without segments -/
+
+/-- the general statement (objects with segments too), kept visible: what `save_load_save_noseg` proves
+    for `o.segs = []`.  Missing for segments: `members_recomputed` (the loader's membership rule returns the
+    declared member lists) and a congruence of the segment loop of `save` under `OutRel`. -/
+def SaveLoadSaveStatement : Prop :=
+  ∀ (o o2 : Obj) (os : OStream) (r : SaveRes) (hd : Bytes) (k : StreamKind) (isLazy : Bool),
+    save o os = .ok r → r.ok = true → os.Good → os.content.length < 9223372036854775808 →
+    FlatDomain o hd → NoWrap64 r.obj.secs r.obj.segs → (∀ a ∈ o.secs, ResidentFull a) → C06.ResaveOk o hd →
+    o2.trans = [] →
+    ∃ (r2 : LoadRes) (r3 : SaveRes), load o2 { data := r.os.content, kind := k } isLazy = .ok r2 ∧ r2.ok = true ∧
+      save r2.obj os = .ok r3 ∧ r3.ok = true ∧ r3.os.content = r.os.content
+
+/-- **save_load_save_noseg** (C06) : for an object without segments whose section data are in memory,
+    saving, loading the bytes with the model's loader (eager or lazy, either stream kind) and saving the
+    loaded object into the same initial stream succeeds and produces the same stream — byte for byte.
+    (`reload_reports_saved_noseg`: the reloaded sections carry the saved header fields and deliver the
+    saved data on request; `preRes_outRel` / `saveTail_os_congr`: the write phase of a segment-less `save`
+    reads a section only through those; `C06.save_twice_no_segments`: saving the saved object again
+    reproduces the result.) -/
+theorem save_load_save_noseg {o : Obj} {os : OStream} {r : SaveRes} {hd : Bytes}
+    (hs : save o os = .ok r) (hok : r.ok = true) (hg : os.Good) (hos : os.content.length < 9223372036854775808)
+    (D : ComposeDomain o hd) (hseg : o.segs = []) (hw : NoWrap64 r.obj.secs r.obj.segs)
+    (hres : ∀ a ∈ o.secs, ResidentFull a)
+    (o2 : Obj) (k : StreamKind) (isLazy : Bool) (htr2 : o2.trans = []) :
+    ∃ (r2 : LoadRes) (r3 : SaveRes), load o2 { data := r.os.content, kind := k } isLazy = .ok r2 ∧ r2.ok = true ∧
+      save r2.obj os = .ok r3 ∧ r3.ok = true ∧ r3.os = r.os := by
+  obtain ⟨hF, r2, hhF, hload, hok2, R⟩ := reload_reports_saved_noseg hs hok hg hos D hseg hw o2 k isLazy htr2
+  have hsegIdx := idx_of_B Seg.index o.segs D.input.segIdx
+  obtain ⟨fsec, fseg, ec, ee, et⟩ := C05.save_writes_fields hs hok hsegIdx
+  have hlen : ehdrSize o.cls ≤ hd.length := by rw [D.input.ident.len]; exact Nat.le_refl _
+  -- saving the saved object again reproduces the result
+  have hagain := C06.save_twice_no_segments hseg D.hdr hlen hs hok
+  have hf : os.fail = false := hg.1
+  have hsegY : r.obj.segs = [] := by
+    have := fseg.1; rw [hseg] at this; exact List.eq_nil_of_length_eq_zero this
+  have hsegX : r2.obj.segs = [] := by
+    have := R.nseg; rw [hsegY] at this; exact List.eq_nil_of_length_eq_zero this
+  rw [C06.save_noseg_eq hsegY hhF hf] at hagain
+  -- the saved sections are resident
+  have hresY : ∀ b ∈ r.obj.secs, ResidentFull b := by
+    intro b hb
+    obtain ⟨i, hi⟩ := List.getElem?_of_mem hb
+    have hil : i < o.secs.length := by rw [← fsec.1]; exact getElem?_lt hi
+    exact (fileBytesOf_saved (fsec.2 i _ b (List.getElem?_eq_getElem hil) hi)
+      (hres _ (List.getElem_mem hil))).1
+  have hrel := preRes_outRel (X := r2.obj) (Y := r.obj) R hresY
+  have fX := preRes_frame r2.obj
+  have fY := preRes_frame r.obj
+  have hc : (preRes r2.obj).cls = (preRes r.obj).cls := by
+    show r2.obj.cls = r.obj.cls; rw [R.clsEq, ec]
+  have he : (preRes r2.obj).enc = (preRes r.obj).enc := by
+    show r2.obj.enc = r.obj.enc; rw [R.encEq, ee]
+  have ht : (preRes r2.obj).trans = (preRes r.obj).trans := by
+    show r2.obj.trans = r.obj.trans; rw [R.trans, et, D.tr]
+  have hh0 : Sv.saveHdr0 (preRes r2.obj) hF = Sv.saveHdr0 (preRes r.obj) hF :=
+    C06.saveHdr0_congr hc he (by show r2.obj.segs.length = r.obj.segs.length; rw [hsegX, hsegY])
+      (by rw [fX.1, fY.1]; exact R.nsec) hF
+  have hpos : (Sv.saveLay0 (preRes r2.obj) (Sv.saveHdr0 (preRes r2.obj) hF)).pos =
+      (Sv.saveLay0 (preRes r.obj) (Sv.saveHdr0 (preRes r.obj) hF)).pos := by
+    unfold Sv.saveLay0 Sv.savePos0
+    simp only [hh0, hc, he]
+  obtain ⟨eos, eok⟩ := saveTail_os_congr hc he ht os (Sv.saveHdr0 (preRes r.obj) hF)
+    (layX := Sv.saveLay0 (preRes r2.obj) (Sv.saveHdr0 (preRes r2.obj) hF))
+    (layY := Sv.saveLay0 (preRes r.obj) (Sv.saveHdr0 (preRes r.obj) hF)) hrel hpos
+  injection hagain with hagain
+  rw [hh0] at eos eok
+  refine ⟨r2, _, hload, hok2, C06.save_noseg_eq hsegX R.hdr hf, ?_, ?_⟩
+  · rw [hh0, eok, hagain]; exact hok
+  · rw [hh0, eos, hagain]
+
+/-- non-vacuity: the segment-less example object (its data are resident) -/
+example (k : StreamKind) (isLazy : Bool) :
+    ∃ (r2 : LoadRes) (r3 : SaveRes),
+      load {} { data := (savedOf (objOf exNosegM)).os.content, kind := k } isLazy = .ok r2 ∧ r2.ok = true ∧
+      save r2.obj {} = .ok r3 ∧ r3.ok = true ∧ r3.os = (savedOf (objOf exNosegM)).os :=
+  save_load_save_noseg exNoseg_ok.saved exNoseg_ok.ok ⟨rfl, rfl⟩ (by decide) exNoseg_ok.dom.toComposeDomain
+    (by decide +kernel) exNoseg_ok.noWrap (by decide +kernel) {} k isLazy rfl
 
 end ElfioVerif.Compose
